@@ -78,6 +78,15 @@ def one_sequence(args):
         seq_f = sf.call("history_seq_probe").get("start")
         # R: restart the follower's directory: pure start-up replay
         sf.call("sleep", ms=120)
+        # the replay stops at the last-applied index found in the index file: wait until the (asynchronously written) value
+        # shows the last entry fed to the follower, however slow the machine is
+        import time as _t
+        t_w = _t.time()
+        while noderig.applied_index_on_disk(df) != len(reqs) and _t.time() - t_w < 10:
+            _t.sleep(0.05)
+        if noderig.applied_index_on_disk(df) != len(reqs):
+            res["inconclusive"] = "applied index on disk %s != %d after 10 s" % (noderig.applied_index_on_disk(df), len(reqs))
+            return res
         sf.kill()
         sf = open_idle(df)
         dump_r = settled_dump(sf, gen)
